@@ -582,8 +582,12 @@ func runC18(r *Run) {
 	})
 
 	// ---- (e) the operator's queues: schedule events -> real named queues -> taskHandler -> hook processes ----
-	r.Cases(10, 5, 5, func(c *Case, rng *Rng) { c18RunQueues(r, c, c18CorpusScenario(c.Idx)) })
+	r.Cases(10, 7, 7, func(c *Case, rng *Rng) { c18RunQueues(r, c, c18CorpusScenario(c.Idx)) })
 	r.Cases(960000, r.N(4, 16), 4, func(c *Case, rng *Rng) { c18RunQueues(r, c, c18RandomScenario(rng)) })
+
+	// ---- (f) start-up of the whole operator on a fake cluster: the burst of Synchronization executions ----
+	r.Cases(20, 3, 3, func(c *Case, rng *Rng) { c18RunStartup(r, c, c18StartupCorpus(c.Idx)) })
+	r.Cases(970000, r.N(3, 10), 3, func(c *Case, rng *Rng) { c18RunStartup(r, c, c18StartupRandom(rng)) })
 }
 
 // c18BoundOK is used only to choose between "check", "report" and "inconclusive" for the wall-clock
@@ -630,6 +634,7 @@ type c18Bind struct {
 	crontab   string // unique: one tick = one event of this binding
 	failFirst int    // the first failFirst executions whose first binding context is this binding fail
 	allowFail bool
+	signal    bool // the failing executions do not exit with a code: the hook process dies from SIGKILL (as under the OOM killer), silently
 }
 
 type c18Hook struct {
@@ -683,6 +688,22 @@ func c18CorpusScenario(idx int) c18Scn {
 				{hook: 0, name: "qa-0", queue: "qa", crontab: c18Crontab(1)},
 				{hook: 0, name: "qb-0", queue: "qb", crontab: c18Crontab(2)}},
 			events:  []c18Event{{0, 0}, {0, 1}, {0, 2}, {60 * time.Millisecond, 0}, {60 * time.Millisecond, 1}, {60 * time.Millisecond, 2}},
+			backoff: 20 * time.Millisecond}
+	case 15:
+		// a hook process that dies from a signal is a started execution like any other: its task fails and is
+		// retried by the queue, and every new process start needs its own token
+		return c18Scn{desc: "corpus: one queue, I=900ms B=2, the hook process is killed by SIGKILL in its first 3 executions (task retried after 20 ms)",
+			hooks:   []c18Hook{{name: "hook0.sh", throttled: true, iv: 900 * time.Millisecond, b: 2}},
+			binds:   []c18Bind{{hook: 0, name: "main-0", queue: "main", crontab: c18Crontab(0), failFirst: 3, signal: true}},
+			events:  []c18Event{{0, 0}},
+			backoff: 20 * time.Millisecond}
+	case 16:
+		// the same with allowFailure (no retry) in two queues: every event's process is killed
+		return c18Scn{desc: "corpus: hook0 (I=500ms B=2) in main and qa, allowFailure, every process of main-0 and the first 2 of qa-0 die from SIGKILL; events at 0, 30 and 60 ms in both",
+			hooks: []c18Hook{{name: "hook0.sh", throttled: true, iv: 500 * time.Millisecond, b: 2}},
+			binds: []c18Bind{{hook: 0, name: "main-0", queue: "main", crontab: c18Crontab(0), failFirst: 100, allowFail: true, signal: true},
+				{hook: 0, name: "qa-0", queue: "qa", crontab: c18Crontab(1), failFirst: 2, allowFail: true, signal: true}},
+			events:  []c18Event{{0, 0}, {0, 1}, {30 * time.Millisecond, 0}, {30 * time.Millisecond, 1}, {60 * time.Millisecond, 0}, {60 * time.Millisecond, 1}},
 			backoff: 20 * time.Millisecond}
 	case 13:
 		// the hook's settings hold whatever other bindings it has: here a webhook next to the queued binding
@@ -763,6 +784,7 @@ func c18RandomScenario(rng *Rng) c18Scn {
 				if rng.Chance(35) {
 					bd.failFirst = rng.Range(1, 3)
 					bd.allowFail = rng.Chance(25)
+					bd.signal = rng.Chance(45)
 				}
 				scn.binds = append(scn.binds, bd)
 			}
@@ -852,14 +874,18 @@ func c18RunQueues(r *Run, c *Case, scn c18Scn) {
 				fmt.Fprintf(&cfg, "  queue: %s\n", bd.queue)
 			}
 			if bd.failFirst > 0 {
-				fmt.Fprintf(&cases, "  %s) lim=%d;;\n", bd.name, bd.failFirst)
+				sig := 0
+				if bd.signal {
+					sig = 1
+				}
+				fmt.Fprintf(&cases, "  %s) lim=%d; sig=%d;;\n", bd.name, bd.failFirst, sig)
 			}
 		}
 		// the very first thing an execution does is to take its start time
 		script := "#!/bin/bash\nif [[ \"${1:-}\" == \"--config\" ]]; then\ncat <<'EOF'\n" + cfg.String() + "EOF\nexit 0\nfi\n" +
 			"ts=$(date +%s%N)\nctx=$(<\"$BINDING_CONTEXT_PATH\")\nre='\"binding\": *\"([^\"]+)\"'\nname=none\n[[ $ctx =~ $re ]] && name=${BASH_REMATCH[1]}\n" +
-			"echo \"$ts $name\" >> " + logOf(hi) + "\n[[ -n \"${VALIDATING_RESPONSE_PATH:-}\" ]] && echo '{\"allowed\":true}' > \"$VALIDATING_RESPONSE_PATH\"\nlim=0\ncase \"$name\" in\n" + cases.String() + "  *) ;;\nesac\n" +
-			"n=$(grep -c \" $name\\$\" " + logOf(hi) + ")\nif (( n <= lim )); then echo 'not yet' >&2; exit 1; fi\nexit 0\n"
+			"echo \"$ts $name\" >> " + logOf(hi) + "\n[[ -n \"${VALIDATING_RESPONSE_PATH:-}\" ]] && echo '{\"allowed\":true}' > \"$VALIDATING_RESPONSE_PATH\"\nlim=0\nsig=0\ncase \"$name\" in\n" + cases.String() + "  *) ;;\nesac\n" +
+			"n=$(grep -c \" $name\\$\" " + logOf(hi) + ")\nif (( n <= lim )); then\n  if (( sig == 1 )); then kill -KILL $$; sleep 5; fi\n  echo 'not yet' >&2; exit 1\nfi\nexit 0\n"
 		_ = writeScript(filepath.Join(hooksDir, h.name), []byte(script), 0o755)
 	}
 	ctx, cancel := context.WithCancel(context.Background())
